@@ -184,8 +184,9 @@ class Engine:
         self._const_cache = {}
 
     # ------------------------------------------------------------------ solver
-    def check(self, pc, extra=()):
-        """sat / unsat / unknown for conjunction"""
+    def check(self, pc, extra=(), why='branch'):
+        """sat / unsat / unknown for conjunction.  `why` = 'obligation' when an unsat answer discharges an obligation, 'branch' when
+        it only prunes a path: with a cross-checker installed the former are all put to the second solver, the latter sampled."""
         self.stats['queries'] += 1
         t0 = time.time()
         s = self.solver
@@ -204,6 +205,10 @@ class Engine:
             self.stats['sat'] += 1
             return 'sat', m
         if r == z3.unsat:
+            xc = getattr(self, 'xcheck', None)
+            if xc is not None and xc.wants(why) and xc.confirm_unsat(list(pc) + list(extra)) == 'disagree':
+                self.stats['unknown'] += 1
+                return 'unknown', None
             self.stats['unsat'] += 1
             return 'unsat', None
         self.stats['unknown'] += 1
@@ -281,7 +286,7 @@ class Engine:
             self.stats['discharged'] += 1
             self.site_samples.setdefault(site, {'kind': kind, 'status': 'unreachable-failure'})
             return
-        r, m = self.check(st.pc, [z3.Not(okc)])
+        r, m = self.check(st.pc, [z3.Not(okc)], why='obligation')
         if r == 'unsat':
             self.stats['discharged'] += 1
             self.site_samples.setdefault(site, {'kind': kind, 'status': 'discharged'})
@@ -312,7 +317,7 @@ class Engine:
             if prev is None:
                 self.site_samples[label] = {'kind': kind, 'status': 'discharged'}
             return True
-        r, m = self.check(st.pc, [z3.Not(c)])
+        r, m = self.check(st.pc, [z3.Not(c)], why='obligation')
         if r == 'unsat':
             self.stats['discharged'] += 1
             if prev is None:
